@@ -33,7 +33,22 @@ impl<'a> Remote<'a> {
     }
 
     pub fn schedule(&self) {
-        instrument!(compio_log::Level::TRACE, "Remote::schedule", id = ?self.header().id);
+        self.schedule_with::<false>()
+    }
+
+    /// Schedule a task whose `JoinHandle` has just marked it as cancelled, so
+    /// that the executor runs it once more and drops the future.
+    ///
+    /// Unlike a wake-up this must neither be skipped because the task is
+    /// (now) cancelled nor be merged into another thread's pending wake-up:
+    /// the executor may already have run the task for that one, before the
+    /// mark was visible, and nobody would schedule it again.
+    pub fn schedule_cancelled(&self) {
+        self.schedule_with::<true>()
+    }
+
+    fn schedule_with<const CANCELLING: bool>(&self) {
+        instrument!(compio_log::Level::TRACE, "Remote::schedule", id = ?self.header().id, cancelling = CANCELLING);
 
         let mut state = self.header().state.start_scheduling();
 
@@ -46,9 +61,9 @@ impl<'a> Remote<'a> {
         // the executor stops waiting for a thread that is still in there.
         let owns_scheduled = !state.is_scheduled();
         loop {
-            if (state.is_scheduled() && !owns_scheduled)
-                || state.is_completed()
-                || state.is_cancelled()
+            if state.is_completed()
+                || (!CANCELLING
+                    && (state.is_cancelled() || (state.is_scheduled() && !owns_scheduled)))
             {
                 if !state.is_scheduling() {
                     self.header().state.finish_scheduling();
@@ -60,10 +75,11 @@ impl<'a> Remote<'a> {
                 break;
             }
 
-            // Another thread is in its critical section, but the task has run
-            // since it set `SCHEDULED`: it is us who turned `SCHEDULED` on, so
-            // we have to push. Wait for the other thread to leave, then take
-            // the bit ourselves.
+            // Another thread is in its critical section, but we have to push:
+            // the task has run since that thread set `SCHEDULED`, so it is us
+            // who turned `SCHEDULED` on (or we are cancelling and do not rely
+            // on anybody else's push). Wait for the other thread to leave,
+            // then take the bit ourselves.
             while self.header().state.load::<Strong>().is_scheduling() {
                 crate::yield_now();
             }
@@ -71,7 +87,12 @@ impl<'a> Remote<'a> {
         }
 
         // Load shared pointer - it should always be valid since we keep it until
-        // Executor drops
+        // Executor drops. The executor nulls it *before* it marks the task as
+        // dropped and then waits for `SCHEDULING` to clear: if it has seen our
+        // bit it is waiting for us, otherwise our `start_scheduling` came after
+        // its mark and we see the null pointer (this is what keeps the
+        // cancelling variant, which ignores the mark, away from a freed
+        // `Shared`).
         let Some(shared) = (unsafe { self.header().shared.load(Ordering::Acquire).as_ref() })
         else {
             self.header().state.finish_scheduling();
@@ -91,7 +112,11 @@ impl<'a> Remote<'a> {
                 // The queue is full: make sure the owner is awake to drain it.
                 waker.wake_by_ref();
                 notified = true;
-            } else if self.header().state.load::<Strong>().is_cancelled() {
+            } else if self.header().shared.load(Ordering::Acquire).is_null() {
+                // The executor has dropped the task (and may be waiting for us
+                // to leave, so it will not make room). A task that was merely
+                // cancelled through its `JoinHandle` still has to be queued:
+                // running it is what drops the future.
                 // Bailing out without pushing: release the reservation.
                 shared.pending.fetch_sub(1, Ordering::Release);
                 self.header().state.finish_scheduling();
